@@ -1,7 +1,8 @@
 ------------------------------ MODULE Validity ------------------------------
 (***************************************************************************)
 (* Every covariance handed out is a valid covariance (property C07).       *)
-(* Two parts, selected by Part.                                            *)
+(* Four parts, selected by Part ("growth", "lattice", "noise"; the paths   *)
+(* are a dimension of "growth").                                           *)
 (*                                                                         *)
 (* Part "growth": the data-growth machine over exact rationals.            *)
 (*                                                                         *)
@@ -26,9 +27,14 @@
 (*                          (learn_additional_noise=True),                 *)
 (*         "hetero"         noise is a function of the input (level of the *)
 (*                          pool point),                                   *)
-(*   the prediction MODE (Modes): from K + noise of the likelihood at hand *)
-(*   ("exact") or from the root cache the fantasy steps update ("fast",    *)
-(*   fast_pred_var).  The denotation does not mention the mode.            *)
+(*   the COMPUTATIONAL PATH the settings select (Modes, a set of path      *)
+(*   records, see Paths): fast_pred_var on (root cache the fantasy steps   *)
+(*   update) / off (solve against K + noise) x the test/test block kept    *)
+(*   LAZY (joint size > max_eager_kernel_size) / evaluated eagerly x the   *)
+(*   solver (Cholesky / CG + Lanczos: size > max_cholesky_size) x          *)
+(*   detach_test_caches on / off.  Every combination is a different branch *)
+(*   of exact_prediction / exact_predictive_covar.  The denotation does    *)
+(*   not mention the path: every invariant below holds on every path.      *)
 (* The state carries the likelihood's BOOKKEEPING in code shape: `fixed`   *)
 (* is the vector stored by FixedGaussianNoise.  "fresh" / "set" store the  *)
 (* levels of all observations; the fantasy steps append the new levels to  *)
@@ -66,6 +72,21 @@
 (* likelihood classes) and checks the same invariants after every step     *)
 (* through eigenvalues in float64.                                         *)
 (*                                                                         *)
+(* Part "noise": the noise a likelihood ADDS (difference of marginal and    *)
+(* latent covariance; variance of p(y | f)) over the Gaussian family x its *)
+(* switches: has_global_noise x has_task_noise x rank 0 / 1 / full of the  *)
+(* multitask likelihood, fixed / fixed + learned / Dirichlet (+ learned) / *)
+(* input dependent noise, x the class of the constraint (default, custom   *)
+(* GreaterThan, Interval) x the class of the RAW parameter value: "edge"   *)
+(* (strongly negative: the transform underflows to the bound), "mid",      *)
+(* "large".  Every constrained component that is switched on contributes   *)
+(* bound + excess(raw) with excess >= 0, the unconstrained parts (a fixed  *)
+(* noise vector, the low-rank task covariance F F') contribute a PSD term: *)
+(*   NoiseAtLeastBound  added - (number of constrained components) * bound *)
+(*                      is PSD for every raw value, with equality on the   *)
+(*                      diagonal at the edge when nothing else is added;   *)
+(*   NoiseSwitches      the two switches off is refused (no noise at all). *)
+(*                                                                         *)
 (* Part "lattice": the kernel PSD lattice - kernel family x every valid    *)
 (* value of its discrete constructor argument x input dimension 1..MaxDim  *)
 (* x ARD / shared lengthscale x lengthscale scale x geometry class, on the *)
@@ -90,7 +111,7 @@ CONSTANTS Part,
           S2,        \* learned noise variance (positive integer)
           Levels,    \* sequence of positive rationals <<n, d>>: the fixed noise levels an observation can carry
           Liks, Hows, MaxChunk,
-          Modes,     \* how predictions are computed ("exact": from K + noise; "fast": from the cached root, fast_pred_var)
+          Modes,     \* the computational paths predictions are made on: a subset of Paths
           Arith,     \* TRUE: posterior covariances are evaluated (exact rationals); FALSE: bookkeeping only
           MaxN,      \* number of observations of a complete history
           MaxDim, Scales
@@ -105,6 +126,15 @@ VARIABLES lik,       \* noise structure of the likelihood
 vars == <<lik, mode, obs, fixed, hist, cov, prev, c, out>>
 
 \* ============================ part "growth" ===================================================
+\* computational paths: which branch of exact_prediction / exact_predictive_covar the settings select
+Path(f, l, s, d) == [fast |-> f, lazy |-> l, cg |-> s, detach |-> d, steps |-> ~s]
+Paths == {Path(f, l, s, d) : f \in BOOLEAN, l \in BOOLEAN, s \in BOOLEAN, d \in BOOLEAN}
+PathExact == Path(FALSE, FALSE, FALSE, TRUE)      \* the defaults of a small problem
+PathFast  == Path(TRUE, FALSE, FALSE, TRUE)
+\* which clauses a path decides: Cholesky paths compute the denotation up to rounding (all clauses); on the CG / Lanczos
+\* paths the inverse is a Galerkin approximation Q (Q'AQ)^-1 Q' <= A^-1: the posterior is still PSD and prior - posterior
+\* is still PSD (conditioning never adds uncertainty), but two approximations are not ordered among themselves
+\* (field `steps`: the path also decides the clauses that compare two posteriors - StepReductionPSD, VarianceMonotone)
 Points(o) == [k \in 1..Len(o) |-> o[k].p]
 Feat(seq) == FromInt([k \in 1..Len(seq) |-> Pool[seq[k]]])
 TestF == FromInt(Test)
@@ -166,6 +196,7 @@ GrowthInit ==
 
 \* ---- invariants ----
 InGrowth == Part = "growth"
+PathKnown        == InGrowth => mode \in Paths /\ Modes \subseteq Paths
 NoiseIsOwn       == InGrowth => NoiseVec(lik, obs, fixed) = [k \in 1..Len(obs) |-> OwnNoise(lik, obs[k])]
 MinNoise         == LET all == {Levels[k] : k \in 1..Len(Levels)} \cup {R(S2)} IN CHOOSE a \in all : \A b \in all : RLe(a, b)
 NoiseFloor       == InGrowth => \A k \in 1..Len(obs) : RLe(MinNoise, NoiseVec(lik, obs, fixed)[k])
@@ -276,8 +307,48 @@ SupportOK == Part = "lattice" /\ c.fam = "pwpoly" =>
                /\ out.phi[1] = ROne /\ out.phi[5] = RZero /\ out.phi[6] = RZero      \* k(0) = 1, support = unit ball
                /\ \A k \in 2..4 : RLt(RZero, out.phi[k]) /\ RLt(out.phi[k], ROne)     \* a correlation strictly inside the support
 
+\* ============================ part "noise" ====================================================
+NoiseTasks == 3                                               \* tasks of the multitask cells; rank NoiseTasks = full
+RawClasses == {"edge", "mid", "large"}
+BoundClasses == {"default", "custom", "interval"}
+NShape(f, g, t, r, fx) == [lik |-> f, glob |-> g, task |-> t, rank |-> r, fixed |-> fx]
+\* glob: a learned homoskedastic (global / second) noise with a constraint; task: per-task noises (rank 0: constrained
+\* diagonal, rank > 0: F F' unconstrained); fixed: a stored noise vector (no constraint: it is added as it is stored)
+NoiseShapes ==
+  {NShape("gaussian", TRUE, FALSE, 0, FALSE), NShape("missingobs", TRUE, FALSE, 0, FALSE),
+   NShape("fixed", FALSE, FALSE, 0, TRUE), NShape("fixed+learned", TRUE, FALSE, 0, TRUE),
+   NShape("dirichlet", FALSE, FALSE, 0, TRUE), NShape("dirichlet+learned", TRUE, FALSE, 0, TRUE),
+   NShape("hetero", TRUE, FALSE, 0, FALSE)}
+  \cup {NShape("multitask", g, t, r, FALSE) : g \in BOOLEAN, t \in BOOLEAN, r \in {0, 1, NoiseTasks}}
+NoiseCells == {[shape |-> sh, raw |-> r, bound |-> b] : sh \in NoiseShapes, r \in RawClasses, b \in BoundClasses}
+
+BoundOf(b)  == CASE b = "default" -> <<1, 10000>> [] b = "custom" -> <<1, 100>> [] b = "interval" -> <<1, 50>>
+\* the transform of a raw value is bound + excess, excess >= 0 whatever the raw value (0 in float64 at the edge)
+ExcessOf(r) == CASE r = "edge" -> RZero [] r = "mid" -> <<7, 10>> [] r = "large" -> <<5, 1>>
+NoiseValid(sh) == sh.glob \/ sh.task \/ sh.fixed               \* "At least one of has_task_noise or has_global_noise"
+NConstrained(sh) == (IF sh.glob THEN 1 ELSE 0) + (IF sh.task /\ sh.rank = 0 THEN 1 ELSE 0)
+\* the unconstrained PSD remainder has a zero direction unless it is a fixed vector / a full-rank F F'
+HasRemainder(sh) == sh.fixed \/ (sh.task /\ sh.rank > 0)
+\* smallest diagonal entry of what is added beyond the remainder
+AddedMin(cell) == RMul(R(NConstrained(cell.shape)), RAdd(BoundOf(cell.bound), ExcessOf(cell.raw)))
+FloorOf(cell)  == RMul(R(NConstrained(cell.shape)), BoundOf(cell.bound))
+NoiseSays(cell) ==
+  [valid |-> NoiseValid(cell.shape), ncon |-> NConstrained(cell.shape), floor |-> FloorOf(cell), added |-> AddedMin(cell),
+   tight |-> cell.raw = "edge" /\ ~HasRemainder(cell.shape)]
+
+NoiseInit ==
+  /\ c \in NoiseCells /\ out = NoiseSays(c)
+  /\ lik = "-" /\ mode = "-" /\ obs = <<>> /\ fixed = <<>> /\ hist = <<>> /\ cov = <<>> /\ prev = <<>>
+
+NoiseAtLeastBound == Part = "noise" /\ out.valid =>
+                       /\ RLe(out.floor, out.added)
+                       /\ (out.tight => out.added = out.floor)
+                       /\ (out.ncon > 0 => RLt(RZero, out.floor))
+                       /\ (out.ncon = 0 => HasRemainder(c.shape))   \* no constraint reports a bound: only PSD is stated
+NoiseSwitches     == Part = "noise" => (out.valid <=> (c.shape.glob \/ c.shape.task \/ c.shape.fixed))
+
 \* ==============================================================================================
-Init == IF Part = "growth" THEN GrowthInit ELSE LatticeInit
+Init == IF Part = "growth" THEN GrowthInit ELSE IF Part = "noise" THEN NoiseInit ELSE LatticeInit
 Next == \E how \in Hows : \E ch \in Chunks(lik) : Add(how, ch)
 Spec == Init /\ [][Next]_vars
 =============================================================================
